@@ -76,7 +76,10 @@ impl<H: Hal, const SIZE: usize, const BUFFER_SIZE: usize> OwningQueue<H, SIZE, B
         Ok(())
     }
 
-    fn pop(&mut self) -> Result<Option<(&[u8], u16)>> {
+    /// Pops the next used buffer, if any. If the device claims to have written more than the buffer
+    /// holds then the buffer itself is an error, but the token is still returned so that the buffer
+    /// can be added back to the queue.
+    fn pop(&mut self) -> Result<Option<(Result<&[u8]>, u16)>> {
         let Some(token) = self.queue.peek_used() else {
             return Ok(None);
         };
@@ -99,10 +102,10 @@ impl<H: Hal, const SIZE: usize, const BUFFER_SIZE: usize> OwningQueue<H, SIZE, B
         // The device reports how many bytes it wrote; reject if it claims more than the buffer
         // size.
         if len > BUFFER_SIZE {
-            return Err(Error::IoError);
+            return Ok(Some((Err(Error::IoError), token)));
         }
 
-        Ok(Some((&buffer[0..len], token)))
+        Ok(Some((Ok(&buffer[0..len]), token)))
     }
 
     /// Checks whether there are any buffers which the device has marked as used so the driver
@@ -124,7 +127,7 @@ impl<H: Hal, const SIZE: usize, const BUFFER_SIZE: usize> OwningQueue<H, SIZE, B
             return Ok(None);
         };
 
-        let result = handler(buffer);
+        let result = buffer.and_then(handler);
 
         // SAFETY: The buffer was just popped from the queue so it's not in it, and there won't be
         // any other references until next time it's popped.
